@@ -125,8 +125,27 @@ impl<'c, 'r, C: ZCol> Visitor<C> for V<'c, 'r> {
 
 fn offset(rng: &mut Rng, desc: &Desc) -> Point {
     const V: [i32; 9] = [0, 1, -1, 7, -7, 64, -64, 1000, -1000];
-    match rng.below(4) {
+    match rng.below(5) {
         0 => Point::new(*rng.pick(&V), *rng.pick(&V)),
+        // far offsets: beyond 16 bits on one or both axes (a code path chosen by the magnitude of the
+        // coordinates is only reached this way; seeded `C07-12`)
+        4 => {
+            let far = |rng: &mut Rng| {
+                let m = match rng.below(5) {
+                    0 => 32_768 + rng.i32r(-70, 70),
+                    1 => 65_536 + rng.i32r(-70, 70),
+                    2 => rng.i32r(30_000, 70_000),
+                    3 => rng.i32r(70_000, 1_000_000),
+                    _ => rng.i32r(-90, 90),
+                };
+                if rng.chance(1, 2) {
+                    -m
+                } else {
+                    m
+                }
+            };
+            Point::new(far(rng), far(rng))
+        }
         1 => {
             // move an anchoring coordinate exactly onto / just across an axis
             let (ax, ay) = match desc {
